@@ -691,8 +691,10 @@ InPrep == Depth > 0 /\ frames[Depth].kind = "prep"
 
 \* a collection is created with capacity `c0` (0 = `new_in`: nothing is prepared until the first push)
 \* e = [sz, al] element layout (sz a positive multiple of al); rev = MutBumpVecRev
-EnterPrep(e, rev, c0, fail) ==
+\* str = MutBumpString (bytes, forward only): the same state machine as MutBumpVec<u8>
+EnterPrepG(e, rev, c0, fail, str) ==
     /\ Active /\ Free /\ Depth < MaxDepth /\ e.sz > 0 /\ e.sz % e.al = 0
+    /\ str => (e.sz = 1 /\ ~rev)
     /\ fail => (CanFail /\ c0 > 0 /\ PrepNeedsBase(chunks, cur, c0 * e.sz, e.al))
     /\ LET r == IF c0 = 0 THEN [ok |-> TRUE, chunks |-> chunks, cur |-> cur, base |-> base, lo |-> 0, hi |-> 0]
                 ELSE DoPrep(chunks, cur, base, c0 * e.sz, e.al, fail)
@@ -704,8 +706,10 @@ EnterPrep(e, rev, c0, fail) ==
           /\ cps' = <<>> /\ last' = 0
           /\ fails' = IF fail THEN fails + 1 ELSE fails
           /\ UNCHANGED <<cfg, ma, blocks, nextId, order, parts, dropped>>
-          /\ Step("enter", [kind |-> "prep", esz |-> e.sz, eal |-> e.al, rev |-> rev, cap |-> c0, fail |-> fail],
+          /\ Step("enter", [kind |-> "prep", esz |-> e.sz, eal |-> e.al, rev |-> rev, cap |-> c0, fail |-> fail, str |-> str],
                   Exp(IF r.ok THEN "ok" ELSE "err", 0, [cap |-> cap, lo |-> r.lo, hi |-> r.hi, newchunk |-> Len(r.chunks) > Len(chunks)]))
+
+EnterPrep(e, rev, c0, fail) == EnterPrepG(e, rev, c0, fail, FALSE)
 
 \* push one element; grows (re-prepares max(2 cap, len + 1, min_non_zero_cap) elements and copies) when full
 PrepPush(fail) ==
